@@ -10,7 +10,35 @@ import (
 	"github.com/orbs-network/lean-helix-go/services/interfaces"
 	"github.com/orbs-network/lean-helix-go/spec/types/go/primitives"
 	"github.com/orbs-network/lean-helix-go/spec/types/go/protocol"
+	"github.com/pkg/errors"
 )
+
+// ReadBlockProof parses block proof bytes that came from outside. The membuffers readers panic on some damaged buffers (a
+// length field of 0xffffffff, for one), so every field the library reads is read once here and a panic while doing so
+// becomes an error; reading the same fields of the same bytes again later cannot panic.
+func ReadBlockProof(blockProofBytes []byte) (blockProof *protocol.BlockProof, err error) {
+	defer func() {
+		if r := recover(); r != nil {
+			blockProof, err = nil, errors.Errorf("malformed block proof: %v", r)
+		}
+	}()
+	blockProof = protocol.BlockProofReader(blockProofBytes)
+	blockRef := blockProof.BlockRef()
+	blockRef.MessageType()
+	blockRef.InstanceId()
+	blockRef.BlockHeight()
+	blockRef.View()
+	blockRef.BlockHash()
+	blockRef.Raw()
+	for it := blockProof.NodesIterator(); it.HasNext(); {
+		node := it.NextNodes()
+		node.MemberId()
+		node.Signature()
+		node.Raw()
+	}
+	blockProof.RandomSeedSignature()
+	return blockProof, nil
+}
 
 // assume commit messages are valid and still hold
 func GenerateLeanHelixBlockProof(keyManager interfaces.KeyManager, commitMessages []*interfaces.CommitMessage) *protocol.BlockProof {
